@@ -11,6 +11,7 @@ import (
 	"regexp"
 	"runtime"
 	"sort"
+	"strconv"
 	"strings"
 	"sync"
 	"syscall"
@@ -111,6 +112,10 @@ func (r *Recorder) Bind(e *env.Env) {
 			c()
 		}
 	})
+	// hnum / hcont: condition values of host types (used by the direct checks only):
+	// a number of the named Go kind, a container or string of the named Go type with n entries
+	e.Define("hnum", func(kind string, n int64) interface{} { return HostNum(kind, n) })
+	e.Define("hcont", func(kind string, n int64) interface{} { return HostCont(kind, int(n)) })
 	// nm: a nil typed map handed in by the host (reads of any key yield nil)
 	e.Define("nm", map[string]int64(nil))
 	e.Define("mb", func(k interface{}) { r.ev("mb " + ank.Render(k)) })
@@ -562,4 +567,74 @@ func classOnly(e string) string {
 		return "runtime"
 	}
 	return "thrown"
+}
+
+// HostNumKinds / HostContKinds list what hnum / hcont can make.
+var HostNumKinds = []string{"int", "int8", "int16", "int32", "int64", "uint", "uint8", "uint16", "uint32", "uint64", "uintptr", "float32", "float64", "duration"}
+var HostContKinds = []string{"[]int64", "[]string", "[]interface", "map[string]int64", "map[interface]interface", "namedstring", "[]byte"}
+
+type hostNamedString string
+
+// HostNum returns n as a value of the named Go number kind.
+func HostNum(kind string, n int64) interface{} {
+	switch kind {
+	case "int":
+		return int(n)
+	case "int8":
+		return int8(n)
+	case "int16":
+		return int16(n)
+	case "int32":
+		return int32(n)
+	case "int64":
+		return n
+	case "uint":
+		return uint(n)
+	case "uint8":
+		return uint8(n)
+	case "uint16":
+		return uint16(n)
+	case "uint32":
+		return uint32(n)
+	case "uint64":
+		return uint64(n)
+	case "uintptr":
+		return uintptr(n)
+	case "float32":
+		return float32(n)
+	case "float64":
+		return float64(n)
+	case "duration":
+		return time.Duration(n)
+	}
+	return nil
+}
+
+// HostCont returns a container (or string) of the named Go type with n entries.
+func HostCont(kind string, n int) interface{} {
+	switch kind {
+	case "[]int64":
+		return make([]int64, n)
+	case "[]string":
+		return make([]string, n)
+	case "[]interface":
+		return make([]interface{}, n)
+	case "[]byte":
+		return make([]byte, n)
+	case "map[string]int64":
+		m := map[string]int64{}
+		for i := 0; i < n; i++ {
+			m["k"+strconv.Itoa(i)] = 0
+		}
+		return m
+	case "map[interface]interface":
+		m := map[interface{}]interface{}{}
+		for i := 0; i < n; i++ {
+			m[int64(i)] = nil
+		}
+		return m
+	case "namedstring":
+		return hostNamedString(strings.Repeat("x", n))
+	}
+	return nil
 }
